@@ -4,13 +4,15 @@
 set -u
 OUT=/verif/selftest/results.tsv
 WT=/tmp/mutant-wt
-: > $OUT
+# RESUME=1 keeps the finished lines of an interrupted batch and runs only the missing mutants
+if [ "${RESUME:-0}" = 1 ] && [ -f $OUT ]; then grep -v '^done$' $OUT > $OUT.tmp; mv $OUT.tmp $OUT; else : > $OUT; fi
 if [ ! -d $WT ]; then git -C /repo worktree add -q --detach $WT HEAD || exit 2; cp /repo/Cargo.lock $WT/; fi
 cd $WT || exit 2
 git checkout -q --detach $(git -C /repo rev-parse HEAD)
 for m in /verif/selftest/mutants/*.diff; do
   name=$(basename $m .diff)
   id=$(echo ${name%%_*} | tr a-z A-Z)
+  grep -q "^$name	" $OUT && continue
   git checkout -q -- .
   git apply $m 2>/dev/null || { echo -e "$name\t$id\tNOAPPLY\t" >> $OUT; continue; }
   t0=$(date +%s)
